@@ -322,7 +322,9 @@ def r184(ctx, rep):
 def r185(ctx, rep):
     f = ctx.func(f"{TR}.get_index_to_remove")
     cfg = ctx.cfg(f)
-    prot = [n for n in cfg.nodes if n.kind == "stmt" and isinstance(n.ast, ast.Assign) and isinstance(n.ast.targets[0], ast.Subscript) and mentions(n.ast.targets[0].slice, "best_index", "_best_index")]
+    from ..inline import expander
+    inl = expander(ctx, f)
+    prot = [n for n in cfg.nodes if n.kind == "stmt" and isinstance(n.ast, ast.Assign) and isinstance(n.ast.targets[0], ast.Subscript) and mentions(inl.expand(n.ast.targets[0].slice, n.ast), "best_index", "_best_index")]
     arg = [cfg.node_containing(node) for node in ast.walk(f.node) if isinstance(node, ast.Call) and _short(node) in ("argmax", "nanargmax")]
     desc = f"{f.local}: best point excluded from removal"
     good = False
@@ -345,7 +347,7 @@ def r185(ctx, rep):
     ok = False
     for node in ast.walk(f.node):
         if isinstance(node, ast.Assign) and any(isinstance(t, ast.Name) and t.id == "dist_sq" for t in node.targets):
-            if mentions(node.value, "best_index", "_best_index"):
+            if mentions(inl.expand(node.value, node), "best_index", "_best_index"):
                 ok = True
     if ok:
         rep.ok("R18.5", f"{f.local}: distances are measured from the best point")
